@@ -187,7 +187,31 @@ def judge(i):
     return None
 
 
+def table_settings():
+    """(number, choice, operation codes) of every setting, read from the data file directly (not through the library's own index)"""
+    import json
+    data = json.loads((core.SRC / "crystal" / "sgdata.json").read_text())
+    return [(int(e[0]), e[6], [int(c) for c in e[8]]) for k in data for e in data[k]]
+
+
 def search(ctx, budget):
+    # every (number, choice) of the data file can be constructed and is that setting
+    from chmpy.crystal.space_group import SpaceGroup
+    seen = {}
+    for number, choice, codes in table_settings():
+        if (number, choice) in seen:
+            continue            # a later entry with the same (number, choice) is shadowed by construction (reported by the model's table)
+        seen[(number, choice)] = True
+        ctx.case({"setting": f"{number}:{choice}", "from": "sgdata.json"}, nontrivial=len(codes) > 1)
+        try:
+            sg = SpaceGroup(number, choice=choice) if choice else SpaceGroup(number)
+            if choice and (sg.international_tables_number != number or sg.choice != choice
+                           or sorted(int(o.integer_code) for o in sg.symmetry_operations) != sorted(codes)):
+                ctx.fail(f"C02:{number}:{choice}", f"SpaceGroup({number}, {choice!r}) is {sg.international_tables_number}:{sg.choice} with other operations than the table lists",
+                         {"number": number, "choice": choice, "construct": True})
+        except Exception as ex:  # noqa
+            ctx.fail(f"C02:{number}:{choice}", f"SpaceGroup({number}, {choice!r}) — a setting of the bundled table — raised {type(ex).__name__}: {ex}",
+                     {"number": number, "choice": choice, "construct": True})
     n = len(entries())
     ctx.note("settings", n)
     for i in range(n):
@@ -206,6 +230,13 @@ def search(ctx, budget):
 
 
 def replay(ctx, obj):
+    if obj["input"].get("construct"):
+        from chmpy.crystal.space_group import SpaceGroup
+        try:
+            SpaceGroup(obj["input"]["number"], choice=obj["input"]["choice"])
+            return None
+        except Exception as ex:  # noqa
+            return f"SpaceGroup({obj['input']['number']}, {obj['input']['choice']!r}) raised {type(ex).__name__}: {ex}"
     if obj["input"].get("pass") == "reverse":
         for i in reversed(range(len(entries()))):
             r = judge(i)
